@@ -928,6 +928,8 @@ class EnumConverter(Converter[enum.Enum]):
 
     def try_convert(self, val: t.Any) -> enum.Enum:
         """See [`Converter.try_convert`][pane.converters.Converter.try_convert]"""
+        if isinstance(val, self.ty):
+            return val  # already a member (try_convert is idempotent)
         val = self.inner_conv.try_convert(val)
         try:
             return self.val_map[val]
@@ -936,6 +938,8 @@ class EnumConverter(Converter[enum.Enum]):
 
     def collect_errors(self, val: t.Any) -> t.Optional[ErrorNode]:
         """See [`Converter.collect_errors`][pane.converters.Converter.collect_errors]"""
+        if isinstance(val, self.ty):
+            return None
         try:
             val = self.inner_conv.try_convert(val)
         except ParseInterrupt:
